@@ -2842,7 +2842,9 @@ class InvertedRegexCharClass(RegexCharClass):
 
     def isdisjoint(self, other):
         if isinstance(other, InvertedRegexCharClass):
-            return len(self.chars | other.chars) >= 256 # TODO: add unicode/specific number of symbols support; for all real uses inverted sets are _never_ disjoint
+            # Always have two inverted sets split up (into ^(S1 | S2), S2 - S1 and S1 - S2), even when between them they exclude
+            # everything and ^(S1 | S2) comes out empty: a DFA state can only carry one inverted set (its Else).
+            return False
         elif isinstance(other, RegexCharClass):
             return other.isdisjoint(self)
 
